@@ -155,7 +155,7 @@ def optRes (s : OptMon) (tid : Nat) (opName : String) (a b : Nat) (res : String)
       match s.recs.find? (·.var == a), hexNat nv with
       | some r, some newv =>
         if okS == "1" then
-          if opName == "cverify" && e.op != "load" then
+          if opName == "cverify" && (r.ver == 2 ^ 32 || e.op != "load") then
             -- owning composite guard: no read.  A genuine shared grant keeps every writer out, so no exclusive section
             -- can have been committed on that lock since the guard was obtained
             let s := { s with nChecksOk := s.nChecksOk + 1 }
